@@ -233,6 +233,11 @@ func (e *EdgeTessellator) appendProjected(pa r2.Point, a Point, pbIn r2.Point, b
 	mid := Point{a.Add(b.Vector).Normalize()}
 	pmid := e.projection.WrapDestination(pa, e.projection.Project(mid))
 	vertices = e.appendProjected(pa, a, pmid, mid, vertices)
+	// Continue from the midpoint as it was actually emitted: the recursive
+	// call may have wrapped it differently (a geodesic through a pole flips
+	// the longitude by exactly half a period), and every vertex must be as
+	// close as possible to the previous one.
+	pmid = vertices[len(vertices)-1]
 	return e.appendProjected(pmid, mid, pb, b, vertices)
 }
 
